@@ -60,7 +60,7 @@ SPEC = dict(
         "matrices off the finite alphabets are not covered; scales are the rungs of SCALES32 / SCALES64 only",
         "homogeneity of UPGrad/DualProj/CAGrad only where sigma_max >= 1.01 norm_eps on both sides (statement's carve-out, 1% guard band for the float32 rounding of sigma_max)",
         "pinv/eigh based aggregators (IMTLG, ConFIG, AlignedMTL): homogeneity only on inputs of unambiguous rank = well-conditioned full rank, or exactly singular {-1,0,1} matrices; dense rank-deficient inputs are dropped (counted)",
-        "IMTLG homogeneity: well-posed inputs |1^T G^+ d| max d >= 1e-6 (1e-3 in float32) with tolerance amplified by its inverse; exactly stationary inputs are asserted in float64 only (guard-stationary)",
+        "IMTLG homogeneity: well-posed inputs |1^T G^+ d| max d >= 1e-6 (1e-3 in float32) with tolerance amplified by its inverse; exactly stationary inputs (float32: integer matrices only) are asserted with the plain tolerance (guard-stationary)",
         "CAGrad homogeneity only on reference-certified non-stationary inputs (its zero-at-stationarity escape is a discontinuity), tolerance 1e-3 s = 10 x sqrt(Clarabel's 1e-8) (observed 1.3e-5 s)",
         "MGDA homogeneity under argmin ties of its Frank-Wolfe loop (rounding breaks exact ties differently at different scales): the output must be one of the runs obtained by breaking the ties in every possible way (E-choice over a float64 replica of the loop, <= 16 runs, else dropped)",
         "ConFIG homogeneity only where |pinv(units) w| >= 1e-6 |w| (1e-3 in float32): it normalises that vector (exact-zero test), tolerance amplified by the inverse",
@@ -503,11 +503,13 @@ def _scale_one(cfg, J, J0, F, dtype, res):
                 q = F.imtlg_q
                 if q < (1e-3 if dtype == "float32" else 1e-6):
                     stable = False
-                    if dtype == "float64" and q <= 1e-13 and ASSERT_IMTLG_STATIONARY64:
-                        # exactly stationary: the library's own guard must decide alike at every scale
+                    if q <= 1e-13 and ASSERT_IMTLG_STATIONARY64 and (dtype == "float64" or bool(np.all(J == np.round(J)))):
+                        # exactly stationary (in float32 only for integer matrices, whose stationarity survives the rounding): not
+                        # ill-posed - the library detects the case and answers 0; its guard must decide alike at every scale, and
+                        # the plain identity A(tJ)/t = A(J) holds with the ordinary tolerance
                         z0, zt = not np.any(x0), not np.any(out[t])
                         res["counters"]["imtlg_stationary_compared"] += 1
-                        if z0 != zt:
+                        if z0 != zt or not (err <= tol):
                             res["viol"].append(dict(sig=f"homogeneity:IMTLG:guard-stationary:{dtype}:scale={_fmt(t)}", msg=desc[:500]))
                     else:
                         res["dropped"] += 1
